@@ -132,8 +132,7 @@ func (e *Engine) intrinsic(p *Path, name string, args []Value, depth int) ([]Res
 	case "vSymbolic":
 		return e.one(p, e.True), true
 	case "vRunPending":
-		e.runPending(p, depth)
-		return e.one(p, nil), true
+		return e.runPending(p, depth), true
 	case "vAssume":
 		e.assume(p, asTerm(args[0]))
 		return e.one(p, nil), true
